@@ -4,3 +4,100 @@ package originium
 
 // Accessors used by the verification harness (added through a build overlay; this file is
 // not part of the repository).
+
+import (
+	"container/list"
+
+	"github.com/B1NARY-GR0UP/originium/pkg/logger"
+	"github.com/B1NARY-GR0UP/originium/types"
+)
+
+// VerifLM exposes a levelManager over a directory for table-level checks.
+type VerifLM struct {
+	lm *levelManager
+	db *DB
+}
+
+// NewVerifLM builds a level manager over dir. With withOracle a DB shell with a fresh oracle is
+// attached (compaction reads the discard watermark from it); this starts the two watermark
+// goroutines, so it must run inside a scheduled execution.
+func NewVerifLM(dir string, l0, ratio, block int, withOracle bool) *VerifLM {
+	v := &VerifLM{}
+	if withOracle {
+		v.db = &DB{dir: dir, logger: logger.GetLogger(), immutables: list.New(), oracle: newOracle(),
+			config: Config{L0TargetNum: l0, LevelRatio: ratio, DataBlockByteThreshold: block}}
+		v.lm = newLevelManager(v.db)
+		v.db.manager = v.lm
+	} else {
+		v.lm = &levelManager{dir: dir, l0TargetNum: l0, ratio: ratio, dataBlockSize: block, logger: logger.GetLogger()}
+	}
+	return v
+}
+
+// Reopen returns a manager over the same directory (and the same oracle) whose handles are
+// rebuilt from the files.
+func (v *VerifLM) Reopen() (*VerifLM, int64) {
+	n := &VerifLM{db: v.db}
+	if v.db != nil {
+		n.lm = newLevelManager(v.db)
+	} else {
+		n.lm = &levelManager{dir: v.lm.dir, l0TargetNum: v.lm.l0TargetNum, ratio: v.lm.ratio, dataBlockSize: v.lm.dataBlockSize, logger: logger.GetLogger()}
+	}
+	mv := n.lm.recover()
+	return n, mv
+}
+
+func (v *VerifLM) Flush(es []types.Entry) error { return v.lm.flushToL0(es) }
+func (v *VerifLM) Recover() int64               { return v.lm.recover() }
+func (v *VerifLM) Compact()                     { v.lm.checkAndCompact() }
+
+// SetWatermark finishes index w on the read mark (the mark only ever moves forward).
+func (v *VerifLM) SetWatermark(w uint64) { v.db.oracle.readMark.Done(w) }
+func (v *VerifLM) Watermark() uint64     { return v.db.oracle.discardAtOrBelow() }
+
+// Lookup is the table part of DB.search: lower bound of key@ts, accepted if it is the same user key.
+func (v *VerifLM) Lookup(key string, ts uint64) (types.Entry, bool) {
+	k := types.KeyWithTs(key, ts)
+	e, ok := v.lm.searchLowerBound(k)
+	if ok && !types.IsSameKey(k, e.Key) {
+		return types.Entry{}, false
+	}
+	return e, ok
+}
+
+// VerifTable describes one table handle.
+type VerifTable struct {
+	Level, Idx int
+	Entries    []types.Entry
+}
+
+// Tables lists every handle with the entries read back from its file.
+func (v *VerifLM) Tables() []VerifTable {
+	var r []VerifTable
+	for level, tables := range v.lm.levels {
+		for e := tables.Front(); e != nil; e = e.Next() {
+			th := e.Value.(tableHandle)
+			d := v.lm.fetch(level, th.levelIdx, th.dataBlockIndex.DataBlock)
+			r = append(r, VerifTable{Level: level, Idx: th.levelIdx, Entries: d.Entries})
+		}
+	}
+	return r
+}
+
+// FilterContains asks the bloom filter of the n-th handle (in Tables order).
+func (v *VerifLM) FilterContains(n int, userKey string) bool {
+	i := 0
+	for _, tables := range v.lm.levels {
+		for e := tables.Front(); e != nil; e = e.Next() {
+			if i == n {
+				th := e.Value.(tableHandle)
+				return th.filter.Contains(userKey)
+			}
+			i++
+		}
+	}
+	return false
+}
+
+// VerifReadTs exposes a transaction's snapshot timestamp (diagnostics only, never an oracle input).
+func (t *Txn) VerifReadTs() uint64 { return t.readTs }
